@@ -10,9 +10,17 @@
 // ended exactly once.  The observation has the format of harness/cmd/c14, so the cases are
 // rendered and judged (agrees / prop_ok) like all the others.
 //
+// It does a SECOND thing: the func-typed field of the SqlConn that begins transactions (today
+// beginTx, found by reflection) is wrapped so that the transaction object handed to transactOnConn
+// counts: the log entries "commit" / "rollback" are the CALLS MADE ON THAT OBJECT (the trans
+// interface), not the calls that reach the driver - a second end call, which *sql.Tx itself answers
+// with ErrTxDone without telling the driver, is an entry of the log.  The caller's context is
+// controller-driven: it ends (cancel / deadline) at a "cancel" step of the body or inside a driver
+// call whose reply carries "+c".
+//
 // Case subset: transactions run one after the other (no schedule) on conns of kind "db" with
-// no WithAcceptable option; api ctx | plain; steps stmt exec (Exec / ExecCtx), tripbrk, nop;
-// oracle ok | fail (generic).
+// no WithAcceptable option; api ctx | plain; steps stmt exec (Exec / ExecCtx), tripbrk, cancel, nop;
+// oracle ok | fail (generic), each with "+c"; thread flag deadline.
 package sqlx
 
 import (
@@ -41,10 +49,33 @@ type v14Step struct {
 }
 
 type v14Thread struct {
-	Conn  int       `json:"conn"`
-	API   string    `json:"api"`
-	Steps []v14Step `json:"steps"`
-	Fin   string    `json:"fin"`
+	Conn     int       `json:"conn"`
+	API      string    `json:"api"`
+	Deadline bool      `json:"deadline"`
+	Steps    []v14Step `json:"steps"`
+	Fin      string    `json:"fin"`
+}
+
+// a context ended by the executor, with context.Canceled or context.DeadlineExceeded
+type v14Ctx struct {
+	context.Context
+	done chan struct{}
+	kind error
+	over bool
+}
+
+func (c *v14Ctx) Done() <-chan struct{} { return c.done }
+func (c *v14Ctx) Err() error {
+	if c.over {
+		return c.kind
+	}
+	return nil
+}
+func (c *v14Ctx) end() {
+	if !c.over {
+		c.over = true
+		close(c.done)
+	}
 }
 
 type v14Case struct {
@@ -79,6 +110,9 @@ type v14Plan struct {
 	nextID  int
 	stmtErr map[int]error
 	lastBad bool
+	cancel  func()
+	counted bool // Commit / Rollback are logged where they are CALLED (on the trans object), not in the driver
+	conn    int  // connection of the running transaction's Begin
 }
 
 func (p *v14Plan) call(conn int, kind string, k int) bool {
@@ -87,12 +121,93 @@ func (p *v14Plan) call(conn int, kind string, k int) bool {
 		o = p.oracle[p.used]
 	}
 	p.used++
+	if strings.HasSuffix(o, "+c") {
+		o = strings.TrimSuffix(o, "+c")
+		if p.cancel != nil {
+			p.cancel()
+		}
+	}
 	if o != "ok" {
 		o = "fail"
 		p.lastBad = true
 	}
-	p.log = append(p.log, []any{p.cur, conn, kind, k, o, "generic", "bare"})
+	if kind == "begin" && o == "ok" {
+		p.conn = conn
+	}
+	if !(p.counted && (kind == "commit" || kind == "rollback")) {
+		p.log = append(p.log, []any{p.cur, conn, kind, k, o, "generic", "bare"})
+	}
 	return o == "ok"
+}
+
+// v14Counted is the transaction object handed to transactOnConn: every Commit / Rollback CALLED on it is
+// an entry of the log, whether or not it reaches the driver.
+type v14Counted struct {
+	Session
+	end interface {
+		Commit() error
+		Rollback() error
+	}
+	p *v14Plan
+}
+
+func (t v14Counted) note(kind string, err error) error {
+	o, vk := "ok", "generic"
+	if err != nil {
+		o = "fail"
+		if errors.Is(err, sql.ErrTxDone) {
+			vk = "txdone"
+		}
+	}
+	t.p.log = append(t.p.log, []any{t.p.cur, t.p.conn, kind, -1, o, vk, "bare"})
+	return err
+}
+func (t v14Counted) Commit() error   { return t.note("commit", t.end.Commit()) }
+func (t v14Counted) Rollback() error { return t.note("rollback", t.end.Rollback()) }
+
+var v14DBType = reflect.TypeOf((*sql.DB)(nil))
+
+// v14Count wraps the func field func(*sql.DB) (<transaction interface>, error) of the struct behind the SqlConn.
+func v14Count(conn SqlConn, p *v14Plan) bool {
+	v := reflect.ValueOf(conn)
+	if v.Kind() != reflect.Ptr || v.Elem().Kind() != reflect.Struct {
+		return false
+	}
+	s := v.Elem()
+	for i := 0; i < s.NumField(); i++ {
+		f := s.Field(i)
+		ft := f.Type()
+		if ft.Kind() != reflect.Func || ft.NumIn() != 1 || ft.In(0) != v14DBType || ft.NumOut() != 2 || f.IsNil() {
+			continue
+		}
+		out := ft.Out(0)
+		if out.Kind() != reflect.Interface || !reflect.TypeOf(v14Counted{}).Implements(out) {
+			continue
+		}
+		slot := reflect.NewAt(ft, unsafe.Pointer(f.UnsafeAddr())).Elem()
+		orig := reflect.ValueOf(slot.Interface())
+		slot.Set(reflect.MakeFunc(ft, func(args []reflect.Value) []reflect.Value {
+			res := orig.Call(args)
+			if !res[1].IsNil() || res[0].IsNil() {
+				return res
+			}
+			inner := res[0].Interface()
+			sess, ok1 := inner.(Session)
+			end, ok2 := inner.(interface {
+				Commit() error
+				Rollback() error
+			})
+			if !ok1 || !ok2 {
+				return res
+			}
+			w := reflect.New(out).Elem()
+			w.Set(reflect.ValueOf(v14Counted{Session: sess, end: end, p: p}))
+			return []reflect.Value{w, res[1]}
+		}))
+		p.counted = true
+		return true
+	}
+	return false
 }
 
 type v14Connector struct{ p *v14Plan }
@@ -255,6 +370,9 @@ func v14Run(c v14Case) map[string]any {
 		if !v14Force(conns[i], opens[i]) {
 			return map[string]any{"id": c.ID, "unsupported": "no field of type breaker.Breaker behind the SqlConn"}
 		}
+		if !v14Count(conns[i], p) {
+			return map[string]any{"id": c.ID, "unsupported": "no func(*sql.DB) (transaction, error) field behind the SqlConn"}
+		}
 	}
 	var esched []int
 	var threads []map[string]any
@@ -271,6 +389,12 @@ func v14Run(c v14Case) map[string]any {
 			returned, panicked bool
 			sess              Session
 		)
+		kind := context.Canceled
+		if sp.Deadline {
+			kind = context.DeadlineExceeded
+		}
+		callCtx := &v14Ctx{Context: context.Background(), done: make(chan struct{}), kind: kind}
+		p.cancel = callCtx.end
 		fn := func(ctx context.Context, s Session) error {
 			runs++
 			sess = s
@@ -289,15 +413,20 @@ func v14Run(c v14Case) map[string]any {
 				case "tripbrk":
 					*opens[sp.Conn] = true
 					trips++
+				case "cancel":
+					callCtx.end()
 				}
 				if err == nil {
 					continue
 				}
 				switch st.OnFail {
 				case "stop":
-					if p.lastBad {
+					switch {
+					case p.lastBad:
 						body = []any{"stmt", k, "generic", "bare"}
-					} else {
+					case errors.Is(err, context.Canceled), errors.Is(err, context.DeadlineExceeded):
+						body = []any{"ctx", k}
+					default:
 						body = []any{"unexpected", k}
 					}
 					bodyRet = err
@@ -333,11 +462,12 @@ func v14Run(c v14Case) map[string]any {
 			if sp.API == "plain" {
 				retErr = conns[sp.Conn].Transact(func(s Session) error { return fn(context.Background(), s) })
 			} else {
-				retErr = conns[sp.Conn].TransactCtx(context.Background(), fn)
+				retErr = conns[sp.Conn].TransactCtx(callCtx, fn)
 			}
 			returned = true
 		}()
 		<-done
+		p.cancel = nil
 		inuse := db.Stats().InUse
 		late := ""
 		if sess != nil {
@@ -390,7 +520,7 @@ func v14Run(c v14Case) map[string]any {
 		threads = append(threads, map[string]any{
 			"started": true, "finished": true, "returned": returned, "did_panic": panicked, "runs": runs, "body": body,
 			"err": facts, "inuse": inuse, "nest_runs": 0, "self_ended": false, "acc": 0, "acc_same": true,
-			"rejected": rejected, "conn_id": connID, "dead_at_call": false, "by_deadline": false, "late": late,
+			"rejected": rejected, "conn_id": connID, "dead_at_call": false, "by_deadline": sp.Deadline, "late": late,
 			"trips": trips, "trips_open": trips, "no_rewrap": false, "forced": true,
 		})
 	}
